@@ -100,18 +100,23 @@ pub fn garbage_line(rng: &mut Rng) -> String {
 
 /// Well-formed commands written with odd whitespace (surplus blanks, tabs, trailing \r).
 pub fn odd_whitespace(rng: &mut Rng, cmd: &str) -> String {
+    // a third of the lines also use white space beyond blank and tab: vertical tab, form feed,
+    // next line, no-break space, em space, ideographic space, line separator, ogham space mark -
+    // the engine's normaliser treats every Unicode white-space character as a separator
+    const EXOTIC: &[&str] = &["\x0b", "\x0c", "\u{85}", "\u{a0}", "\u{2003}", "\u{3000}", "\u{2028}", "\u{1680}", " \u{a0}", "\x0b "];
+    let exotic = rng.chance(1, 3);
     let mut out = String::new();
     if rng.chance(1, 2) {
-        out.push_str(*rng.pick(&[" ", "  ", "\t", " \t "]));
+        out.push_str(if exotic && rng.chance(1, 2) { *rng.pick(EXOTIC) } else { *rng.pick(&[" ", "  ", "\t", " \t "]) });
     }
     for (i, tok) in cmd.split(' ').enumerate() {
         if i > 0 {
-            out.push_str(*rng.pick(&[" ", "  ", "\t", " \t", "   "]));
+            out.push_str(if exotic && rng.chance(1, 2) { *rng.pick(EXOTIC) } else { *rng.pick(&[" ", "  ", "\t", " \t", "   "]) });
         }
         out.push_str(tok);
     }
     if rng.chance(1, 2) {
-        out.push_str(*rng.pick(&[" ", "\t", "  ", "\r", " \r"]));
+        out.push_str(if exotic && rng.chance(1, 2) { *rng.pick(EXOTIC) } else { *rng.pick(&[" ", "\t", "  ", "\r", " \r"]) });
     }
     out
 }
